@@ -14,11 +14,11 @@ apply_demo() {
 }
 echo "### (a) existing tests with the patch"
 git apply "$patch" || { echo "PATCH DOES NOT APPLY"; exit 2; }
-flock /tmp/cargo-slot-5 cargo test -p rs-matter --offline --no-fail-fast $feats 2>&1 | grep -E "^test result|FAILED|panicked|error(\[|:)" | sort | uniq -c | head -20
+flock /tmp/cargo-slot-${SLOT:-5} cargo test -p rs-matter --offline --no-fail-fast $feats 2>&1 | grep -E "^test result|FAILED|panicked|error(\[|:)" | sort | uniq -c | head -20
 echo "### (b) demo with the patch (expect failure)"
 apply_demo
-flock /tmp/cargo-slot-5 cargo test -p rs-matter --offline $feats $democmd 2>&1 | grep -E "^test result|^test .*(FAILED|ok)$|error(\[|:)" | head -20
+flock /tmp/cargo-slot-${SLOT:-5} cargo test -p rs-matter --offline $feats $democmd 2>&1 | grep -E "^test result|^test .*(FAILED|ok)$|error(\[|:)" | head -20
 echo "### (c) demo without the patch (expect pass)"
 git apply -R "$patch"
-flock /tmp/cargo-slot-5 cargo test -p rs-matter --offline $feats $democmd 2>&1 | grep -E "^test result|^test .*(FAILED|ok)$|error(\[|:)" | head -20
+flock /tmp/cargo-slot-${SLOT:-5} cargo test -p rs-matter --offline $feats $democmd 2>&1 | grep -E "^test result|^test .*(FAILED|ok)$|error(\[|:)" | head -20
 git checkout -q -- . ; git clean -fdq
